@@ -361,6 +361,8 @@ LEAVES = [
      assign(MAXW, "primal_dual_branch_impl", "upper_bound", {"capacity": "capacity", "weight_sum": "weightSum", "items[a].efficiency": "eff"}, k=1)),
     ("C04", "prunes", "(profitSum upper lower : Rat)", "Bool",
      test(MAXW, "primal_dual_branch_impl", "profit_sum + upper_bound", {"profit_sum": "profitSum", "upper_bound": "upper", "lower_bound[0]": "lower"})),
+    ("C04", "prunesLeft", "(profitSum upper lower : Rat)", "Bool",
+     test(MAXW, "primal_dual_branch_impl", "profit_sum + upper_bound", {"profit_sum": "profitSum", "upper_bound": "upper", "lower_bound[0]": "lower"}, k=1)),
     ("C04", "zeroCost", "(cost : Rat)", "Bool", test(MAXW, "max_additive_utilitarian_welfare_primal_dual_scheme", "p.cost == 0", {"p.cost": "cost"})),
     ("C04", "zeroCostTaken", "(profit : Rat)", "Bool", test(MAXW, "max_additive_utilitarian_welfare_primal_dual_scheme", "profit > 0", {"profit": "profit"})),
     # ---- C09: exhaustion wrappers
@@ -368,6 +370,7 @@ LEAVES = [
     ("C09", "defaultBound", "(budget n : Rat)", "Rat", assign(EXH, "exhaustion_by_budget_increase", "budget_bound", {"instance.budget_limit": "budget", "profile.num_ballots()": "n"})),
     ("C09", "withinBound", "(cur bound : Rat)", "Bool", test(EXH, "exhaustion_by_budget_increase", "budget_bound", {"current_instance.budget_limit": "cur", "budget_bound": "bound"}, k=1)),
     ("C09", "nextBudget", "(cur step : Rat)", "Rat", assign(EXH, "exhaustion_by_budget_increase", "current_instance.budget_limit", {"current_instance.budget_limit": "cur", "budget_step": "step"})),
+    ("C09", "nextBudgetAll", "(cur step : Rat)", "Rat", assign(EXH, "exhaustion_by_budget_increase", "current_instance.budget_limit", {"current_instance.budget_limit": "cur", "budget_step": "step"}, k=1)),
     # ---- C13: tie-breaking keys
     ("C13", "lexicoKey", "(name : Rat)", "Rat", lam(TIE, "lexico_tie_breaking", {"proj.name": "name"})),
     ("C13", "appScoreKey", "(score : Rat)", "Rat", lam(TIE, "app_score_tie_breaking", {"prof.approval_score(proj)": "score"})),
@@ -418,10 +421,17 @@ def props_with_leaves():
     return seen
 
 
+# a property's obligations may also rest on the leaf layer of other properties
+DEPENDS = {"C01": ["C02", "C03", "C04", "C05"], "C07": ["C02"], "C08": ["C13"]}
+
+
 def regenerate(only=None):
     """rewrite lean/Gen/<Prop>.lean from /repo; returns the list of translation problems"""
     os.makedirs(GEN_DIR, exist_ok=True)
     problems = []
+    if only is not None and only in DEPENDS:
+        for dep in DEPENDS[only]:
+            problems += regenerate(only=dep)
     # table generators (container op tables for C17, write summaries for C20)
     if only in (None, "C17"):
         try:
